@@ -49,6 +49,10 @@ def gen_plan(rng, tier: str, idx: int) -> dict:
         "excluded": excluded,
         "qgen": rng.choice([0, 1, 1, 2]),
         "idents": W.gen_idents(rng, len(kernels)),
+        # F3: kernels report (informational) error codes in some transitions and move all the same,
+        # as NUTS does for "maximum tree depth"; what is stored must not depend on them
+        "errors": ({str(rng.randrange(len(kernels))): {f"{c},{t}": rng.choice([1, 2, 7]) for c in range(4) for t in range(1, 60) if rng.random() < 0.3}}
+                   if rng.random() < 0.4 else {}),
     }
 
 
@@ -255,6 +259,7 @@ def execute(plan: dict) -> dict:
     counters["probe.excluded_key"] = int(bool(plan["excluded"]))
     counters["probe.matrix_quantity"] = int(any(len(s["shape"]) == 2 for k in plan["kernels"] for s in k["keys"]))
     counters["probe.multi_kernel"] = int(len(plan["kernels"]) > 1)
+    counters["fault.F3_error_codes_configured"] = sum(len(v) for v in plan.get("errors", {}).values())
     counters["stored_samples"] = len(ref["stored"]) * plan["chains"]
     T = len(ref["trans"])
     sig = sha(canon([[e for e in cfgs], plan["chunk"], sorted(W.tracked_keys(plan)), [op[0] for op in plan["script"]]]))[:16]
